@@ -316,7 +316,23 @@ class SReal(_SNum):
         return wrap(tm.ceil(self._term))
 
     def __round__(self, n=None):
-        raise Unsupported('round() of a symbolic real')
+        # CPython float.__round__ over the reals: nearest multiple of 10**-n, ties to the even multiple
+        # (float rounding of x itself is outside the real-number semantics, as everywhere else)
+        if n is not None and not (isinstance(n, int) and not is_symbolic(n)):
+            raise Unsupported('round() with a symbolic number of digits')
+        from fractions import Fraction
+        scale = tm.const(Fraction(10) ** int(n or 0), 'R')
+        y = tm.mul(self._term, scale)
+        f = tm.floor(y)
+        frac = tm.sub(y, tm.toreal(f)) if hasattr(tm, 'toreal') else tm.sub(y, f)
+        half = tm.const(Fraction(1, 2), 'R')
+        one = tm.const(1, 'I')
+        odd = tm.eq(tm.mod(f, tm.const(2, 'I')), one)
+        up = tm.add(f, one)
+        r = tm.ite(tm.lt(frac, half), f, tm.ite(tm.gt(frac, half), up, tm.ite(odd, up, f)))
+        if n is None:
+            return wrap(r)
+        return wrap(tm.div(tm.toreal(r) if hasattr(tm, 'toreal') else r, scale))
 
 
 class SInt(_SNum, int):
